@@ -46,9 +46,9 @@ static int zero_release;                /* object reference count hit zero (see 
 static int retained_at_cb;
 static int terminated_seen;
 static char polls[64]; static int npolls;
+static char rets[3][48]; static int nrets[3];   /* values returned by the counter updates, per thread (part of the outcome) */
+#define RET(v) do { int v_ = (v); if (nrets[me] < 40) nrets[me] += snprintf(rets[me] + nrets[me], 47 - nrets[me], "%d,", v_); } while (0)
 static int op_pre_ready[3];             /* the operation thread t is executing was entered before ready() was entered */
-static int known_mode, known_hit;       /* known_mode: /verif/known_findings.json lists C10-stale-zero-before-ready */
-#define KF_ID "C10-stale-zero-before-ready"
 
 static void my_release(parsec_object_t *o) { (void)o; zero_release++; }
 
@@ -60,15 +60,8 @@ static void the_callback(parsec_taskpool_t *t)
     CS_CHECK(cb_count == 1, "termination callback invoked %d times (second call by T%d at its step %d '%s'; first by T%d step %d)",
              cb_count, me, me >= 0 ? cur_step[me] : -1, me >= 0 ? onm[S->script[me][cur_step[me]].op] : "init", cb_thread, cb_step);
     CS_CHECK(ready_started, "termination reported (callback) before the taskpool was declared ready");
-    if (known_mode && outstanding > 0 && me >= 0 && op_pre_ready[me] && S->script[me][cur_step[me]].op != O_READY) {
-        /* attribution rule of the known finding: the premature report is raised from a counter update that was
-         * entered before ready() was entered (its zero-crossing observation predates readiness) */
-        cs_known(KF_ID ": termination reported with %d unit(s) of work pending by a counter update entered before ready() (stale zero crossing, then monitor read as BUSY)", outstanding);
-        known_hit = 1; cb_thread = me; cb_step = cur_step[me]; cb_done = 1;
-        return;
-    }
-    CS_CHECK(outstanding == 0, "termination reported (callback by T%d) while %d unit(s) of work are still held (nb_tasks=%d nb_pending_actions=%d)",
-             me, outstanding, tp->nb_tasks, tp->nb_pending_actions);
+    CS_CHECK(outstanding == 0, "termination reported (callback by T%d in its '%s', entered %s ready()) while %d unit(s) of work are still held (nb_tasks=%d nb_pending_actions=%d)",
+             me, me >= 0 ? onm[S->script[me][cur_step[me]].op] : "?", (me >= 0 && op_pre_ready[me]) ? "before" : "after", outstanding, tp->nb_tasks, tp->nb_pending_actions);
     CS_CHECK(tp->nb_tasks == 0 && tp->nb_pending_actions == 0, "termination reported with non-zero counters nb_tasks=%d nb_pending_actions=%d",
              tp->nb_tasks, tp->nb_pending_actions);
     cb_thread = me; cb_step = me >= 0 ? cur_step[me] : -1;
@@ -84,7 +77,6 @@ static void poll_state(int me)
     char c = s == PARSEC_TERM_TP_TERMINATED ? 'T' : s == PARSEC_TERM_TP_BUSY ? 'B' : s == PARSEC_TERM_TP_NOT_READY ? 'N' : '?';
     if (npolls < 60) polls[npolls++] = c;
     CS_CHECK(c != '?', "taskpool_state returned %d", (int)s);
-    if (known_hit) return;
     if (c == 'T') {
         CS_CHECK(cb_done, "taskpool_state returned TERMINATED (poll by T%d) %s", me, cb_running ? "while the termination callback is still running" : "before the termination callback ran");
         CS_CHECK(outstanding == 0, "taskpool_state returned TERMINATED while %d unit(s) of work are held", outstanding);
@@ -112,17 +104,17 @@ static void body(void *arg)
         case O_ADD_TASKS: case O_SET_TASKS:
             CS_CHECK(holds > 0, "harness: script of T%d adds work without holding a token", me);
             outstanding += st->n;
-            if (st->op == O_ADD_TASKS) M->taskpool_addto_nb_tasks(tp, st->n); else M->taskpool_set_nb_tasks(tp, st->n);
+            if (st->op == O_ADD_TASKS) RET(M->taskpool_addto_nb_tasks(tp, st->n)); else RET(M->taskpool_set_nb_tasks(tp, st->n));
             if (st->post) { mbox_tasks += st->n; cs_point_here(); } else held_tasks[me] += st->n;
             break;
         case O_DONE_TASK:
             CS_CHECK(held_tasks[me] > 0, "harness: T%d completes a task it does not hold", me);
             held_tasks[me]--; outstanding--;
-            M->taskpool_addto_nb_tasks(tp, -1);
+            RET(M->taskpool_addto_nb_tasks(tp, -1));
             break;
         case O_SET_TASKS0:
             outstanding -= held_tasks[me]; held_tasks[me] = 0;
-            M->taskpool_set_nb_tasks(tp, 0);
+            RET(M->taskpool_set_nb_tasks(tp, 0));
             break;
         case O_TAKE_TASK:
             while (mbox_tasks == 0) cs_wait();
@@ -131,17 +123,17 @@ static void body(void *arg)
         case O_ADD_ACTIONS: case O_SET_ACTIONS:
             CS_CHECK(holds > 0, "harness: script of T%d adds an action without holding a token", me);
             outstanding += st->n;
-            if (st->op == O_ADD_ACTIONS) M->taskpool_addto_runtime_actions(tp, st->n); else M->taskpool_set_runtime_actions(tp, st->n);
+            if (st->op == O_ADD_ACTIONS) RET(M->taskpool_addto_runtime_actions(tp, st->n)); else RET(M->taskpool_set_runtime_actions(tp, st->n));
             if (st->post) { mbox_actions += st->n; cs_point_here(); } else held_actions[me] += st->n;
             break;
         case O_DONE_ACTION:
             CS_CHECK(held_actions[me] > 0, "harness: T%d releases an action it does not hold", me);
             held_actions[me]--; outstanding--;
-            M->taskpool_addto_runtime_actions(tp, -1);
+            RET(M->taskpool_addto_runtime_actions(tp, -1));
             break;
         case O_SET_ACTIONS0:
             outstanding -= held_actions[me]; held_actions[me] = 0;
-            M->taskpool_set_runtime_actions(tp, 0);
+            RET(M->taskpool_set_runtime_actions(tp, 0));
             break;
         case O_TAKE_ACTION:
             while (mbox_actions == 0) cs_wait();
@@ -160,7 +152,7 @@ static void run_scen(const scen_t *s)
     S = s; M = &parsec_termdet_local_module.module;
     outstanding = 1; ready_started = ready_returned = 0;
     cb_count = cb_running = cb_done = 0; cb_thread = -9; cb_step = -9; zero_release = 0; retained_at_cb = 1; terminated_seen = 0; npolls = 0;
-    mbox_tasks = mbox_actions = 0; known_hit = 0; memset(op_pre_ready, 0, sizeof(op_pre_ready));
+    mbox_tasks = mbox_actions = 0; memset(rets, 0, sizeof(rets)); memset(nrets, 0, sizeof(nrets)); memset(op_pre_ready, 0, sizeof(op_pre_ready));
     memset(held_tasks, 0, sizeof(held_tasks)); memset(held_actions, 0, sizeof(held_actions)); memset(cur_step, 0, sizeof(cur_step));
     tp = calloc(1, sizeof(parsec_taskpool_t));
     PARSEC_OBJ_CONSTRUCT_WRELEASE(tp, parsec_taskpool_t, my_release);      /* reference count 1 = the user's reference */
@@ -182,7 +174,6 @@ static void run_scen(const scen_t *s)
     cs_watch(&tp->tdm.monitor, sizeof(tp->tdm.monitor), "tdm.monitor");
     cs_body_t b[3] = { body, body, body }; void *a[3] = { (void *)0, (void *)1, (void *)2 };
     cs_run(s->nthreads, b, a);
-    if (known_hit) { cs_observe("known-finding: premature termination by T%d.%d", cb_thread, cb_step); return; }
     /* end of the execution: every token has been given back and ready() was called */
     CS_CHECK(outstanding == 0 && ready_returned, "harness: script did not return all tokens (outstanding=%d)", outstanding);
     CS_CHECK(cb_count == 1, "all work is done and the taskpool is ready but termination was %s (monitor=%p nb_tasks=%d nb_pending_actions=%d)",
@@ -190,8 +181,8 @@ static void run_scen(const scen_t *s)
     CS_CHECK(M->taskpool_state(tp) == PARSEC_TERM_TP_TERMINATED, "callback ran but the final state is %d, not TERMINATED", (int)M->taskpool_state(tp));
     CS_CHECK(tp->nb_tasks == 0 && tp->nb_pending_actions == 0, "final counters non-zero: nb_tasks=%d nb_pending_actions=%d", tp->nb_tasks, tp->nb_pending_actions);
     polls[npolls] = 0;
-    cs_observe("cb@T%d.%d(%s) polls=%s%s%s", cb_thread, cb_step, cb_thread >= 0 ? onm[s->script[cb_thread][cb_step].op] : "-", polls,
-               retained_at_cb ? "" : " cb-before-retain", zero_release ? " REFCOUNT-HIT-ZERO" : "");
+    cs_observe("cb@T%d.%d(%s) polls=%s ret=[%s|%s|%s]%s%s", cb_thread, cb_step, cb_thread >= 0 ? onm[s->script[cb_thread][cb_step].op] : "-", polls,
+               rets[0], rets[1], rets[2], retained_at_cb ? "" : " cb-before-retain", zero_release ? " REFCOUNT-HIT-ZERO" : "");
     M->unmonitor_taskpool(tp);
 }
 
@@ -287,10 +278,17 @@ static cs_scenario_t scenarios[10];
 static void setup(void)
 {   /* one-time lazy initialisation of the class system outside the controlled runs */
     parsec_taskpool_t *t = calloc(1, sizeof(*t)); PARSEC_OBJ_CONSTRUCT_WRELEASE(t, parsec_taskpool_t, my_release);
-    known_mode = getenv("C10_KNOWN_FINDING") && atoi(getenv("C10_KNOWN_FINDING"));
 }
+/* scenarios that only the thorough tier runs (same shapes as others, kept out of the quick tier for its time budget) */
+static const char *thorough_only[] = { "ptg_add_then_ready", "actions_fanout", "set_runtime_actions0_vs_ready", "set_runtime_actions_then_release", NULL };
 int main(int argc, char **argv)
 {
-    for (int i = 0; i < NSCEN; i++) { scenarios[i].name = scen[i].name; scenarios[i].run = runners[i]; scenarios[i].max_bound = 0; }
-    return cs_main(argc, argv, "C10", scenarios, NSCEN, setup);
+    int quick = getenv("C10_QUICK") && atoi(getenv("C10_QUICK")), n = 0;
+    for (int i = 0; i < NSCEN; i++) {
+        int skip = 0;
+        for (int k = 0; quick && thorough_only[k]; k++) if (!strcmp(thorough_only[k], scen[i].name)) skip = 1;
+        if (skip) continue;
+        scenarios[n].name = scen[i].name; scenarios[n].run = runners[i]; scenarios[n].max_bound = 0; n++;
+    }
+    return cs_main(argc, argv, "C10", scenarios, n, setup);
 }
